@@ -32,7 +32,7 @@ assumptions(PROP, [
     "element table: 2D 3/6/4/8, 3D 4/10/6/15/8/20; a mesh is 3D iff it has a z column that is not constant "
     "(PlainMesh.dimensions); 2D meshes come with a constant z column or without z column",
     "ids are integers in [1, 2^31-1]; a labelled class has node or element ids above int32, for which the accepted outcomes "
-    "are an exception from add_geometry or an exact round trip",
+    "are an exception (VMAPExportError from add_geometry, ValueError from add_node_set/add_element_set) or an exact round trip",
     "columns exported at location NODE carry one value per node (equal in all rows of the node); ELEMENT_NODAL columns carry any "
     "value per row; values are any float64 incl. -0.0, subnormals, 1e300, inf and the canonical NaN, compared bit for bit "
     "(NaN == NaN)",
@@ -308,9 +308,14 @@ def _step(k, op, ex, model, meshes, infos, frames, ctx, stats, api):
             ret = fn(*args)
         except Exception as e:  # noqa
             exc = e
+        above = any(i > INT32_MAX for i in ids)
         if reasons:
             ctx.label("op:set_failing")
-            _expect_failure(k, op, exc, tuple(allowed), ", ".join(reasons), ctx)
+            _expect_failure(k, op, exc, tuple(allowed) + ((ValueError,) if above else ()), ", ".join(reasons), ctx)
+            return True
+        if above and isinstance(exc, ValueError):
+            # accepted outcome for members that do not fit the VMAP int32 storage: an exception, nothing written
+            ctx.tolerate("add_*_set raised ValueError: ids above int32")
             return True
         if exc is not None:
             raise Violation("%s: valid set rejected with %s: %s" % (_describe(k, op), type(exc).__name__, str(exc)[:300]),
